@@ -130,11 +130,13 @@ Definition data_incr (i : nat) (k : N -> code) : code :=
 (* ================= DashMap / DashSet ================= *)
 (* every method: self.inner.read()/write().unwrap(), the table operation, the guard's drop *)
 Definition MAPCELL (o : nat) : nat := S (slot o).
-Definition dm_apply (o : nat) (f : amap -> amap * list N) (k : list N -> code) : code :=
-  Atomic (fun e st => match get_obj st (MAPCELL o) with
-                      | Some (OCell vals c) => let '(m', out) := f (pairs_of vals) in
-                                               Some (e, set_obj st (MAPCELL o) (OCell (flat_of m') c), out)
-                      | _ => None end) k.
+(* the table operation of a method, performed under the lock in one block *)
+Definition dm_block (o : nat) (f : amap -> amap * list N) (e : exec) (st : store) : option (exec * store * list N) :=
+  match get_obj st (MAPCELL o) with
+  | Some (OCell vals c) => let '(m', out) := f (pairs_of vals) in
+                           Some (e, set_obj st (MAPCELL o) (OCell (flat_of m') c), out)
+  | _ => None end.
+Definition dm_apply (o : nat) (f : amap -> amap * list N) (k : list N -> code) : code := Atomic (dm_block o f) k.
 Definition dm_locked (o : nat) (write : bool) (k : code) : code :=
   rw_lock_code (slot o) write (fun res => match res with LkOk => k | _ => Panic end).
 Definition dm_op (o : nat) (write : bool) (f : amap -> amap * list N) (k : list N -> code) : code :=
